@@ -88,7 +88,7 @@ class HookDispatch(Harness):
     reach = ("nontrivial", "time-list-with-repeated-entry", "hook-not-fired-for-time", "filter-excluded", "fill",
              "cancel")
     bounds = {
-        "quick": "one probe event with 1 hook (all 9 type/before-after kinds) x time list in {None, [t1], [t1,t2]} "
+        "quick": "one probe event with 1 hook (all 9 type/before-after kinds) x time list in {None, [], [t1], [t1,t2]} "
                  "symbolic, plus 2-hook combinations of the same kind; market filters none/class/instance; 2 sessions "
                  "(2+1 steps), markets M0 + index market, 2 agents (scripted buy/sell/cancel)",
         "thorough": "adds [t1,t2,t3] lists and probe listed in the second session",
@@ -101,7 +101,7 @@ class HookDispatch(Harness):
 
     def cases(self, tier):
         out = []
-        lens = (None, 1, 2) if tier == "quick" else (None, 1, 2, 3)
+        lens = (None, 0, 1, 2) if tier == "quick" else (None, 0, 1, 2, 3)
         for typ, before in HOOK_KINDS:
             filters = [None] if typ != "market" else [None, "class:Market", "class:IndexMarket", "inst:M0", "inst:IDX"]
             for flt in filters:
@@ -314,7 +314,8 @@ class FundamentalShock(Harness):
     nontrivial_event = "the shock fired at least once"
     reach = ("nontrivial", "non-target-step-checked", "outside-window-step-checked")
     bounds = {"quick": "3 markets (zero volatility), sessions of 2+3 steps, shock in either session, trigger offset "
-                       "0..2, window 1..3, enabled true/false, no orders",
+                       "0..2, window 1..3, enabled true/false, no orders; generation chunk 100 or shrunk to 2 steps "
+                       "(chunk boundaries after the shock)",
               "thorough": "same plus a drifting market and scripted orders"}
     assumptions = ("priceChangeRate is passed to the real setup() as a solver real (setup stores it unchecked)",
                    "zero volatility so that regeneration after the shock involves no sampling")
@@ -326,7 +327,8 @@ class FundamentalShock(Harness):
             for k in (0, 1, 2):
                 for w in (1, 2, 3):
                     for target in ("M1",) if tier == "quick" and (k, w) != (0, 2) else ("M0", "M1", "M2"):
-                        out.append({"where": where, "k": k, "w": w, "target": target, "enabled": True})
+                        out.append({"where": where, "k": k, "w": w, "target": target, "enabled": True,
+                                    "chunk": 2 if (k + w) % 2 else 100})
             out.append({"where": where, "k": 0, "w": 2, "target": "M1", "enabled": False})
         return out
 
@@ -349,6 +351,7 @@ class FundamentalShock(Harness):
                 after[p.market.market_id, p.market.get_time()] = p.market.get_fundamental_price()
         ctx = rn.make_run(g, st, {"acts": ["none"]}, on_event=on_event)
         sim = ctx.sim
+        sim.fundamentals._generate_chunk_size = case.get("chunk", 100)     # public instance attribute
         ctx.runner._run()
         start = 0 if case["where"] == 0 else 2
         lo, hi = start + case["k"], start + case["k"] + case["w"] - 1
@@ -556,6 +559,7 @@ class LimitRuleRun(Harness):
                for t in (["M0"], ["M1"], ["M0", "M1"]) for w in (0, 1)]
         out.append({"targets": ["M0"], "where": 0, "n1": 1, "active": [0, 0], "acts": ["limit"]})
         out.append({"targets": ["M0"], "where": 0, "n1": 1, "active": [1, 1], "acts": ["limit", "market"]})
+        out.append({"targets": ["M0"], "where": 0, "n1": 1, "active": [0, 1], "acts": ["limit"], "only_m0": True})
         if tier == "thorough":
             out.append({"targets": ["M0"], "where": 0, "n1": 2, "active": [1, 2], "acts": ["limit"]})
             out.append({"targets": ["M0", "M1"], "where": 0, "n1": 1, "active": [0, 1], "acts": ["limit"]})
@@ -580,9 +584,13 @@ class LimitRuleRun(Harness):
                 p0_fill[id(p)] = rn.RUN.sim.id2market[p.market_id].get_market_price(0)
         menu = {"acts": case["acts"], "per_agent": {"0": {"side": "B"}, "1": {"side": "S"}},
                 "price_hi": 1000, "vol_fixed": 1, "active_from": case["active"][0], "active_until": case["active"][1]}
+        if case.get("only_m0"):
+            st["A"]["markets"] = ["M0"]
         ctx = rn.make_run(g, st, menu, on_event=on_event)
         sim = ctx.sim
-        r = g.real("r", 0, 1, lo_strict=True, hi_strict=True)
+        # with orders in step 0 the reference price itself is a solver term: the rate is then a concrete number
+        # so that the band stays linear in the solver variables
+        r = g.real("r", 0, 1, lo_strict=True, hi_strict=True) if not case.get("only_m0") else 0.05
         for e in sim.events:
             if isinstance(e, PriceLimitRule):
                 e.trigger_change_rate = r
